@@ -608,7 +608,16 @@ def c18_mapfile(w, ev, slot):
         os.unlink(path)
         w.fail('c18.add_cli', 'add-metadata raised %r' % (e,))
     os.unlink(path)
-    w.expect_table(slot.real, exp, 'c18.add_cli', True, 'add-metadata')
+    # the helper behind the command hands back the annotated table; whether
+    # that is the table it was given (annotated in place) or a new one is its
+    # own business (it is not public API): the result is what is checked, and
+    # what the slot holds from here on
+    result = ret if ret is not None else slot.real
+    w.expect_table(result, exp, 'c18.add_cli', True, 'add-metadata')
+    if result is not slot.real:
+        w.expect_unchanged(slot, 'c18.add_cli.receiver_changed',
+                           'add-metadata returned a new table')
+        slot.real = result
     slot.ref = exp
     return 'c18_mapfile:ok'
 
